@@ -3,7 +3,7 @@ from ..engine import rule
 from ..db import (walk, peel, peel_casts, render, callee, path_ends, short_path, is_call, call_args, lit_int,
                   exit_kind, path_conditions, atoms, AnchorMissing, local_name)
 from ..guards import guarded_exits, mentions, is_call_to, cmp_atom
-from ..origins import origins, for_loop_parts
+from ..origins import origins, for_loop_parts, index as oindex
 from ..wimodel import flag_names
 from .C02 import _loops, _chain
 from .C11 import _normalize_rules
@@ -32,6 +32,51 @@ def _arm_map(node):
     for a in node["arms"]:
         pth = (a["pat"].get("e") or {}).get("path") or a["pat"].get("path") or ("_" if a["pat"].get("k") == "Wild" else "?")
         out[pth.split("::")[-1]] = a["body"]
+    return out
+
+
+def _mode_flag_expr(db, f, e):
+    """`e` (in function f) is the expression that maps a Mode to its split flag: a match on a Mode value, or a call to a private
+    helper whose body is such a match on one of its parameters.  Returns (scrutinee text in f's terms, {arm: flag set}) or None."""
+    from ..db import deref_let
+    from ..inline import nf
+    e = deref_let(e)
+    if not isinstance(e, dict):
+        return None
+    if e.get("k") == "Match" and e.get("src") == "Normal":
+        am = _arm_map(e)
+        if "A" in am and "B" in am:
+            return nf(e["scrut"]), {k: flag_names(v) for k, v in am.items()}
+        return None
+    if is_call(e):
+        g = None
+        for k in (e.get("resolved"), e.get("callee"), callee(e)):
+            if k and k in db.fns:
+                g = db.fns[k]
+                break
+        if g is None or not g.hir or g.trait or g.info.get("vis") == "Public":
+            return None
+        body = peel(g.hir)
+        while isinstance(body, dict) and body.get("k") == "Block" and not body.get("stmts") and "expr" in body:
+            body = peel(body["expr"])
+        if isinstance(body, dict) and body.get("k") == "Match" and body.get("src") == "Normal":
+            am = _arm_map(body)
+            sc = peel(body["scrut"])
+            if "A" in am and "B" in am and sc.get("k") == "Path" and sc.get("res") == "local":
+                bd = oindex(db).bindings(g).get(sc["lid"])
+                args = call_args(e)
+                if bd and bd[0] == "param" and bd[1] < len(args):
+                    return nf(args[bd[1]]), {k: flag_names(v) for k, v in am.items()}
+    return None
+
+
+def _mode_flag_exprs(db, f):
+    out = []
+    for n, _ in walk(f.hir):
+        if n.get("k") == "Match" or is_call(n):
+            r = _mode_flag_expr(db, f, n)
+            if r:
+                out.append((n, r))
     return out
 
 
@@ -76,21 +121,15 @@ def pairing(db, ctx):
     want_flag = {"A": {"SPLIT_A"}, "B": {"SPLIT_B"}}
     for nm in ("set_mode", "set_subset"):
         f = db.one(nm, "StatefulTokenizer")
-        ms = [n for n, _ in walk(f.hir) if n.get("k") == "Match" and n.get("src") == "Normal"]
         ok = False
         got = {}
-        for m in ms:
-            am = _arm_map(m)
-            if "A" in am and "B" in am:
-                got = {k: flag_names(v) for k, v in am.items()}
-                ok = got.get("A") == want_flag["A"] and got.get("B") == want_flag["B"] and all(v == set() for k, v in got.items() if k not in ("A", "B"))
+        scr = None
+        for m, (sc, mp) in _mode_flag_exprs(db, f):
+            got = mp
+            scr = sc
+            ok = got.get("A") == want_flag["A"] and got.get("B") == want_flag["B"] and all(v == set() for k, v in got.items() if k not in ("A", "B"))
         ctx.ob("%s|mode->flag" % nm, ok, "%s maps %s (must be A->SPLIT_A, B->SPLIT_B, otherwise empty)" % (nm, {k: sorted(v) for k, v in got.items()}), fn=f)
         # which mode is matched: set_mode must look at the NEW mode (its parameter), set_subset at the tokenizer's current mode
-        scr = None
-        for m in ms:
-            am = _arm_map(m)
-            if "A" in am and "B" in am:
-                scr = render(peel(m["scrut"]))
         want_scr = "mode" if nm == "set_mode" else "self.mode"
         ctx.ob("%s|matches-%s" % (nm, "new-mode" if nm == "set_mode" else "current-mode"), scr == want_scr,
                "%s matches on `%s` (must be `%s`: %s)" % (nm, scr, want_scr, "the mode being set — matching the old mode adds the old mode's split list and the new mode's "
@@ -135,8 +174,8 @@ def offsets(db, ctx):
         raise AnchorMissing("NodeSplitIterator::next: (char_end, byte_end) decision")
     pat, iff = dec
     names = [p.get("name") for p in pat["pats"]]
-    cond = render(iff["cond"]).replace(" ", "")
-    last_cond = cond in ("((idx+1)==self.splits.len())", "(self.splits.len()==(idx+1))")
+    from ..inline import nf as _nf
+    last_cond = _nf(iff["cond"]) == "((1 + self.index) == self.splits.len())"
     then_t = peel(iff["then"])
     then_ok = then_t.get("k") == "Tup" and [render(x) for x in then_t["elems"]] == ["self.char_end", "self.byte_end"]
     els = iff.get("else", {})
@@ -172,7 +211,15 @@ def offsets(db, ctx):
     ctx.ob("next|emitted-ranges", used is not None and used[2:4] == ["byte_start", "byte_end"] and node == ["char_start", "char_end"],
            "emitted node: chars %s, bytes %s (must be (char_start,char_end),(byte_start,byte_end))" % (node, used[2:4] if used else None), fn=f)
     idx = any(n.get("k") == "AssignOp" and n.get("op") == "Add" and "index" in render(n["l"]) and lit_int(n["r"]) == 1 for n, _ in walk(f.hir))
-    stop = any(pol and ek in ("none", "ret") and cmp_atom(cond) and cmp_atom(cond)[0] == "Ge" and "splits.len()" in render(cond) for ifn, cond, pol, ek, ps in guarded_exits(f.hir))
+    def _is_stop(cond):
+        c = cmp_atom(cond)
+        if not c:
+            return False
+        op, l, r = c
+        if op in ("Le", "Lt"):
+            op, l, r = {"Le": "Ge", "Lt": "Gt"}[op], r, l
+        return op == "Ge" and _nf(l) == "self.index" and _nf(r) == "self.splits.len()"
+    stop = any(pol and ek in ("none", "ret") and _is_stop(cond) for ifn, cond, pol, ek, ps in guarded_exits(f.hir))
     ctx.ob("next|index", idx and stop, "index += 1 per unit (%s) and None once idx >= splits.len() (%s)" % (idx, stop), fn=f)
 
 
@@ -185,12 +232,24 @@ def closure(db, ctx):
     ok = any(n.get("k") == "AssignOp" and n.get("op") == "BitOr" and "subset" in render(n["l"]) for n, _ in walk(sm.hir))
     ctx.ob("set_mode|ors-flag", ok, "set_mode does `self.subset |= <mode flag>`: %s" % ok, fn=sm)
     ss = db.one("set_subset", "StatefulTokenizer")
-    norm = any(c.get("k") == "MethodCall" and c.get("method") == "normalize" and "mode_subset" in render(c["recv"]) for c, _ in walk(ss.hir))
+    from ..db import walk_x, deref_let
+    isM = lambda x: (x.get("k") == "Match" or is_call(x)) and _mode_flag_expr(db, ss, x) is not None
+    is_norm = lambda x: x.get("k") == "MethodCall" and x.get("method") == "normalize" and any(isM(y) for y, _ in walk_x(x["recv"])) \
+        and any(local_name(y) == "subset" for y, _ in walk_x(x["recv"]))
+    norm = any(is_norm(c) for c, _ in walk(ss.hir))
     readd = False
-    for c, _ in walk(ss.hir):
-        if is_call(c) and path_ends(callee(c), "mem::replace"):
-            readd = "new_subset | mode_subset" in render(c).replace("(", "").replace(")", "")
-    ctx.ob("set_subset|normalise-and-readd", norm and readd, "set_subset normalises (subset|mode_subset) (%s) and stores new_subset|mode_subset (%s)" % (norm, readd), fn=ss)
+
+    def _or_operands(e):
+        e = deref_let(e)
+        if isinstance(e, dict) and e.get("k") == "Binary" and e.get("op") == "BitOr":
+            return _or_operands(e["l"]) + _or_operands(e["r"])
+        return [e]
+    stores = [call_args(c)[1] for c, _ in walk(ss.hir) if is_call(c) and path_ends(callee(c), "mem::replace") and len(call_args(c)) > 1 and "subset" in render(call_args(c)[0])]
+    stores += [n["r"] for n, _ in walk(ss.hir) if n.get("k") == "Assign" and render(n["l"]).endswith(".subset")]
+    for v in stores:
+        ops = _or_operands(v)
+        readd = len(ops) >= 2 and any(isM(o) for o in ops if isinstance(o, dict)) and any(is_norm(o) for o in ops if isinstance(o, dict))
+    ctx.ob("set_subset|normalise-and-readd", norm and readd, "set_subset normalises (subset | mode flag) (%s) and stores <normalised> | mode flag (%s)" % (norm, readd), fn=ss)
     nx = [f for f in db.impls_of("Iterator::next") if "NodeSplitIterator" in f.key]
     reads = nx and any(c.get("k") == "MethodCall" and c.get("method") == "head_word_length" for c, _ in walk(nx[0].hir))
     ctx.ob("next|reads-head_word_length", bool(reads), "NodeSplitIterator::next reads head_word_length() (hence the closure requirement): %s" % bool(reads))
